@@ -211,6 +211,21 @@ def _rulefile(ctx):
                         if isinstance(leaf, ast.Subscript) and \
                                 isinstance(leaf.slice, ast.Constant):
                             wild_r.add(leaf.slice.value)
+            # each constructor argument is decoded from its own field
+            for sub in ast.walk(blk):
+                if not isinstance(sub, ast.keyword) or sub.arg is None:
+                    continue
+                keys = set(leaf.slice.value for leaf in ast.walk(sub.value)
+                           if isinstance(leaf, ast.Subscript) and
+                           N.txt(leaf.value) == 'data' and
+                           isinstance(leaf.slice, ast.Constant))
+                if not keys:
+                    continue
+                ctx.ob('C15.1', parse, sub.value, keys == {sub.arg},
+                       '%s: rule attribute %s is decoded from its own file '
+                       'name field, value and wildcard test alike (fields '
+                       'read: %s)' % (kind, sub.arg, sorted(keys)),
+                       construct='%s parser %s' % (kind, sub.arg))
         ctx.ob('C15.1', parse, blocks[0],
                sorted(consumed) == sorted(set(fields)),
                '%s: keys consumed by the parser %s = template fields' % (
